@@ -46,7 +46,11 @@ class Repo:
             raise RuntimeError(f"{path} is not under {self.root}")
         with open(path, encoding="utf-8") as fh:
             src = fh.read()
-        tree = ast.parse(src, path)
+        import warnings
+
+        with warnings.catch_warnings():
+            warnings.simplefilter("ignore", SyntaxWarning)
+            tree = ast.parse(src, path)
         self.modules[module] = tree
         self.module_src[module] = src
         consts: dict[str, ast.expr] = {}
